@@ -589,7 +589,11 @@ func (interp *Interpreter) cfg(root *node, sc *scope, importPath, pkgName string
 			// Make sure default clause is in last position.
 			c := n.lastChild().child
 			if i, l := getDefault(n), len(c)-1; i >= 0 && i != l {
-				c[i], c[l] = c[l], c[i]
+				// Keep the other clauses in source order, as their expressions
+				// must be evaluated in that order.
+				d := c[i]
+				copy(c[i:], c[i+1:])
+				c[l] = d
 			}
 			sc = sc.pushBloc()
 			sc.loop = n
